@@ -137,6 +137,23 @@ func Record(s string) { recorded = append(recorded, s) }
 // Note marks a modelling assumption that was exercised (listed in the evidence).
 func Note(s string) {}
 
+// LockHeld reports whether the mutex is held (natively: by anybody).
+func LockHeld(mu interface{}) bool {
+	type tryLocker interface {
+		TryLock() bool
+		Unlock()
+	}
+	l, ok := mu.(tryLocker)
+	if !ok {
+		panic("LockHeld needs a mutex")
+	}
+	if l.TryLock() {
+		l.Unlock()
+		return false
+	}
+	return true
+}
+
 // Sleep lets at least d pass on the monotonic clock.
 // Natively it sleeps for real; vectors needing more than 4s in total are skipped.
 func Sleep(d time.Duration) {
